@@ -10,7 +10,6 @@ import (
 	"net/http"
 	"net/http/httptest"
 	"net/url"
-	"os"
 	"path/filepath"
 	"sort"
 	"strings"
@@ -144,6 +143,7 @@ type c18HRoute struct {
 	Params   []c18HItem `json:"params"`
 	Literals []c18HItem `json:"literals"`
 	Headers  []c18HItem `json:"headers"`
+	Suspects []c18HItem `json:"suspects"`
 }
 
 type c18HarvestFile struct {
@@ -276,13 +276,34 @@ func TestVerif_C18(t *testing.T) {
 		env.serve(req)
 	}
 	c18AdminSweep(res, admin, "users with payload names were added", "", "")
-	if os.Getenv("C18_DEBUG") != "" {
-		c18StoredStage(env, res, routes)
-		res.write(t, "TestVerif_C18")
-		return
+	// routes from which a function is reachable that the regenerated tables mark as outside the model today (a
+	// hand-built value with an unescaped or unquoted leaf, a non-HTML template executed into a response, hand-written
+	// markup with arguments): c18_harvest.json names them with their call distance.  Empty on a tree whose
+	// obligations hold.
+	type c18Focus struct {
+		route verifRoute
+		depth int
+		why   string
+	}
+	var focus []c18Focus
+	{
+		seenH := map[string]bool{}
+		byHandler := map[string]c18HRoute{}
+		for _, hr := range harvest.Routes {
+			if !seenH[hr.Handler] {
+				seenH[hr.Handler] = true
+				byHandler[hr.Handler] = hr
+			}
+		}
+		for _, route := range routes {
+			if sp := byHandler[route.Handler].Suspects; len(sp) > 0 {
+				focus = append(focus, c18Focus{route, sp[0].Depth, sp[0].Name + ": " + sp[0].Where})
+			}
+		}
+		sort.SliceStable(focus, func(i, j int) bool { return focus[i].depth < focus[j].depth })
 	}
 	// stored (second-order) canaries: security keys whose client-chosen fields carry tagged payloads (c18c.go)
-	c18StoredStage(env, res, routes)
+	c18StoredStage(env, res, routes, len(focus) > 0)
 	c18AdminSweep(res, admin, "security-key registrations whose client-chosen fields carry payloads", "", "")
 	probe := func(route verifRoute, mode, credName string, cookie *http.Cookie, payload string) {
 		target := route.Path
@@ -610,10 +631,13 @@ func TestVerif_C18(t *testing.T) {
 			// page) and with the first credential the base succeeds with; every listed credential for the routes
 			// with a base of their own (login, second factor, ...)
 			wrapCreds := []string{"none"}
-			if b.creds != nil || verifThorough() {
+			if b.creds != nil {
 				wrapCreds = order
 			} else if len(okCreds) > 0 && okCreds[0] != "none" {
 				wrapCreds = append(wrapCreds, okCreds[0])
+				if verifThorough() && len(okCreds) > 1 {
+					wrapCreds = append(wrapCreds, okCreds[len(okCreds)-1])
+				}
 			}
 			for _, cn := range wrapCreds {
 				for _, pm := range params {
@@ -663,6 +687,80 @@ func TestVerif_C18(t *testing.T) {
 		routeTimes[route.Path] = fmt.Sprintf("%d probes, %d ms", res.counts["harvest_probes"]-probesBefore, time.Since(routeStart).Milliseconds())
 	}
 	res.Extra["harvest_route_cost"] = routeTimes
+	// ---- focus stage: the thorough volume (all payloads bare and wrapped, every credential kind, every harvested
+	// parameter) on the routes that reach a suspect function, nearest first, within a time budget
+	// (only while no canary has fired: the stage exists to find an input for a broken obligation)
+	if len(focus) > 0 && !verifThorough() && len(res.Hits) == 0 {
+		focusStart := time.Now()
+		budget := 60 * time.Second
+		var focused []string
+		allBare := append(c18BasePayloads(), c18UnquotedPayloads()...)
+		wrapIn := append(c18UnquotedPayloads(), c18BasePayloads()[:4]...)
+	focusLoop:
+		for _, fc := range focus {
+			route := fc.route
+			if strings.HasPrefix(route.Path, "/static/") || strings.HasPrefix(route.Path, "/custom_static/") {
+				continue
+			}
+			focused = append(focused, fmt.Sprintf("%s (distance %d to %s)", route.Path, fc.depth, fc.why))
+			hr := hv[route.Handler]
+			bs := bases[route.Path]
+			if len(bs) == 0 {
+				bs = []c18Base{{name: "bare", method: "GET"}, {name: "bare", method: "POST"}}
+			}
+			for _, b := range bs {
+				var params []string
+				seenP := map[string]bool{}
+				for _, it := range hr.Params {
+					if !seenP[it.Name] {
+						seenP[it.Name] = true
+						params = append(params, it.Name)
+					}
+				}
+				if b.form != nil {
+					var baseKeys []string
+					for k := range b.form() {
+						baseKeys = append(baseKeys, k)
+					}
+					sort.Strings(baseKeys)
+					for _, k := range baseKeys {
+						if !seenP[k] {
+							seenP[k] = true
+							params = append(params, k)
+						}
+					}
+				}
+				var order []string
+				for _, c := range hcreds {
+					order = append(order, c.name)
+				}
+				if b.creds != nil {
+					order = b.creds
+				}
+				for _, cn := range order {
+					for _, pm := range params {
+						if time.Since(focusStart) > budget {
+							res.bump("focus_budget_exhausted")
+							break focusLoop
+						}
+						for _, pl := range allBare {
+							res.bump("focused_probes")
+							hsend(route, b, cn, c18Mode{}, pm, pl)
+						}
+						for _, pl := range wrapIn {
+							for _, w := range c18Wrappers(pl) {
+								wrapperOf[w.text] = w.wrapper
+								res.bump("focused_probes")
+								hsend(route, b, cn, c18Mode{}, pm, w.text)
+							}
+						}
+					}
+				}
+			}
+		}
+		res.Extra["focused_routes"] = focused
+		res.Extra["focus_stage_ms"] = time.Since(focusStart).Milliseconds()
+	}
 	res.Extra["wrapped_probes_ms"] = wrapMs
 	c18AdminSweep(res, admin, "the dictionary-driven probes of the service port", "", "")
 	// ---- nested canaries: destinations that are keymaster URLs with canary parameters, on every variant of the
